@@ -88,6 +88,15 @@ def _make(name, modk, kwargs):
     BF, BR = _classes()
     stubs.install((BF, 'uniform', stubs.s_uniform), (BF, 'np', stubs.numpy_shim_light), (BF, 'float', ops.sfloat))
     cls = getattr(BF if modk == 'BF' else BR, name)
+    if 'XinSheYang' not in name:
+        # state that survives between uses: ANOTHER object of the same class (another dimension where the constructor
+        # takes one) was created and used earlier in the same process
+        try:
+            from artap.individual import Individual
+            other = cls(**dict(kwargs, dimension=kwargs['dimension'] + 1)) if 'dimension' in kwargs else cls(**kwargs)
+            other.evaluate(Individual([0.5 * (p['bounds'][0] + p['bounds'][1]) for p in other.parameters]))
+        except Exception:
+            pass
     return cls(**kwargs)
 
 
